@@ -4,6 +4,7 @@ package main
 import (
 	"fmt"
 	"os"
+	"runtime/debug"
 	"strings"
 
 	"verif/harness/checks"
@@ -47,7 +48,7 @@ func main() {
 	}
 	defer func() {
 		if r := recover(); r != nil {
-			c.Internal("harness panic: %v", r)
+			c.Internal("harness panic: %v\n%s", r, debug.Stack())
 			c.Finish()
 		}
 	}()
